@@ -93,7 +93,8 @@ Proof. exact missing_fragment_example. Qed.
 From CGV Require Import Base.NxGraph Reader.ReaderImpl Reader.ReaderLemmas Reader.ReaderSim Reader.ReaderRing
      Resolve.GraphOps Resolve.Pipeline Frag.NDict Frag.StripImpl Frag.FragText
      Reader.Grammar Reader.Lin Reader.ReaderCheck Reader.ReaderUnit
-     Dialect.ReaderFaults Dialect.FragAnnot Dialect.CopyAnnot Dialect.ResolveFaults Dialect.MachineFaults Dialect.MachineInject Dialect.DriverFaults.
+     Dialect.ReaderFaults Dialect.FragAnnot Dialect.CopyAnnot Dialect.ResolveFaults Dialect.MachineFaults Dialect.MachineInject Dialect.DriverFaults Dialect.DriverAllAtom.
+From CGV Require Stereo.EzStrings.
 
 (** ---- the real reader model (Reader/ReaderImpl.v) ---- *)
 (** an error inside the loop iteration of ANY node (= any reachable loop state) is the result *)
@@ -311,6 +312,35 @@ Theorem C20_driver_fragment_annotation_error : forall fo mk add rc s laa legacy 
   spec_run fo sinit pre = Ok sp -> fragment_node_parser fo (annot_text annot) = Err e ->
   drive rc (read_fragments_with fo mk add) s laa legacy trs = Err e.
 Proof. exact driver_fragment_annotation_error. Qed.
+(** the ALL-ATOM branch of read_fragments as the stereo component models it from strings (Stereo/EzStrings.v: split, strip,
+    Frag's SMILES parser and template; compared with the implementation on the string cases of the C15 check) *)
+Theorem C20_all_atom_fragments_strip_error : forall fo block pre nt post e,
+  fragment_split block = pre ++ nt :: post ->
+  Forall (fun y => exists g, EzStrings.marked_template fo (fst y) (snd y) = Ok g) pre ->
+  strip_bonding_descriptors fo (snd nt) = Err e ->
+  EzStrings.read_fragments_model fo block true = Err e.
+Proof. exact aa_fragments_strip_error. Qed.
+(** END TO END through both real parser models, two-block all-atom string "{body}.{fbody}" *)
+Theorem C20_driver_all_atom_annotation_error : forall fo body fbody legacy trs mol preF name postF toks dc pre b annot post sp e,
+  body <> [] -> ~ In "}"%char body -> fbody <> [] -> ~ In "}"%char fbody ->
+  read_cgsmiles fo ("{"%char :: body ++ ["}"%char]) = Ok mol ->
+  fragment_split ("{"%char :: fbody ++ ["}"%char]) = preF ++ (name, FragText.render (decorate toks dc)) :: postF ->
+  Forall (fun y => exists g, EzStrings.marked_template fo (fst y) (snd y) = Ok g) preF ->
+  FragText.wf toks dc = true -> excluded toks dc = false ->
+  decorate toks dc = pre ++ ITok (TBracket b annot) :: post ->
+  spec_run fo sinit pre = Ok sp -> fragment_node_parser fo (annot_text annot) = Err e ->
+  drive (read_cgsmiles fo) (EzStrings.read_fragments_model fo)
+        ("{"%char :: body ++ "}"%char :: "."%char :: "{"%char :: fbody ++ ["}"%char]) true legacy trs = Err e.
+Proof. exact driver_all_atom_annotation_error. Qed.
+Example C20_nonvacuous_driver_all_atom :
+  let fo := fo_of_table [(S "abc", None); (S "0.5", Some (S "0.5"))] in
+  (match drive (read_cgsmiles fo) (EzStrings.read_fragments_model fo) (S "{[#A][#A]}.{#A=[$]C[C;w=abc][$]}") true true [] with
+   | Err e => Some e | Ok _ => None end) = Some EType /\
+  (match drive (read_cgsmiles fo) (EzStrings.read_fragments_model fo) (S "{[#A][#A]}.{#A=[$]C[C;a=b=c][$]}") true true [] with
+   | Err e => Some e | Ok _ => None end) = Some (ESyntax (S "toomany_eq")) /\
+  (match from_string (read_cgsmiles fo) (EzStrings.read_fragments_model fo) (S "{[#A][#A]}.{#A=[$]C[C;w=0.5][$]}") true true with
+   | Err _ => false | Ok _ => true end) = true.
+Proof. exact driver_all_atom_example. Qed.
 (** END TO END, base block of the documented grammar read by ReaderImpl.read_cgsmiles: the three injected reader faults *)
 Theorem C20_driver_grammar_annotation_error : forall fo rf a, Grammar.wf fo a = true -> has_branch_mult a = false ->
   class_C04 true a = 0%nat -> forall s rest laa legacy trs, find_blocks s = print true a :: rest ->
@@ -390,3 +420,6 @@ Print Assumptions C20_driver_string_base_error.
 Print Assumptions C20_driver_string_fragment_error.
 Print Assumptions C20_coarse_branch_is_instance.
 Print Assumptions C20_coarse_fragments_strip_error.
+Print Assumptions C20_all_atom_fragments_strip_error.
+Print Assumptions C20_driver_all_atom_annotation_error.
+Print Assumptions C20_nonvacuous_driver_all_atom.
